@@ -71,7 +71,7 @@ meta("C05",
      tested_only="MRTS='auto' plumbing of the scalar vs the profile route and index selections through the public API (oracle on the implementation, both backends); multivariate order value vs order profile (oracle; the pooled sums are C04's synfire theorem)",
      assumptions=[A_FLOAT, A_CY, A_RQ])
 meta("C08",
-     proved="shift and scale (with MRTS, max_tau scaled) transform only the time axis of the ISI, SPIKE, SPIKE-Sync, order profiles and leave directionality values / filter indicators unchanged; time reversal mirrors the ISI, SPIKE (limits exchanged) and SPIKE-Sync profiles, mirrors and negates order/directionality (spec level), integrals unchanged; KNOWN FINDING F13 as theorem (order of all-empty input is +1 in both orientations)",
+     proved="shift and scale (with MRTS, max_tau scaled) transform only the time axis of the ISI, SPIKE, SPIKE-Sync, order profiles and leave directionality values / filter indicators unchanged; time reversal mirrors the ISI, SPIKE (limits exchanged) and SPIKE-Sync profiles, mirrors and negates order/directionality (spec level), integrals unchanged; API level, both backends: ISI and SPIKE distance over the whole recording or any sub-interval (moved along) are unchanged by a shift and by a scaling with k > 0 (MRTS scaled along); KNOWN FINDING F13 as theorem (order of all-empty input is +1 in both orientations)",
      tested_only="the same relations through the public API on the implementation (oracle, both backends); order value of all-empty input is known finding F13",
      rule="exhaustive <=3-spike pairs on the 9-point grid (sampled 2500) + random pairs, random dyadic shift c and scale k (ties preserved), mirror about the midpoint; nine API results per pair; distinct by canonical encoding",
      assumptions=[A_FLOAT, A_CY, A_RQ])
@@ -106,8 +106,8 @@ meta("C06",
      rule="random lists of 2-5 trains (k/16 grid, empty / repeated / shared-spike trains) + all triples of <=2-spike trains on the 5-point grid (sampled); one random permutation per list; distinct by canonical encoding",
      assumptions=[A_FLOAT, A_CY, A_RQ])
 meta("C07",
-     proved="ISI profile values and distance in [0,1]; SPIKE profile values in [0,1] (incl. the non-linear upper bound, supremum 1) for plain/RI/adaptive; SPIKE-Sync entries in [0, multiplicity], value in [0,1] on every interval; order in [-1,1]; directionality values in {-1,0,1}; ISI / SPIKE / SPIKE-Sync profiles symmetric in their arguments (hence all scalars, both backends); self comparison: ISI 0, SPIKE 0, SPIKE-Sync 1, directionality 0",
-     tested_only="SPIKE distance over sub-intervals lies in [0,1] (follows from the profile bound; checked by the oracle on the implementation); finiteness of float results",
+     proved="ISI profile values and distance in [0,1]; SPIKE profile values in [0,1] (incl. the non-linear upper bound, supremum 1) for plain/RI/adaptive; SPIKE-Sync entries in [0, multiplicity], value in [0,1] on every interval; order in [-1,1]; directionality values in {-1,0,1}; ISI / SPIKE / SPIKE-Sync profiles symmetric in their arguments (hence all scalars, both backends); self comparison: ISI 0, SPIKE 0, SPIKE-Sync 1, directionality 0; at API level and for both backends: SPIKE and ISI distance over the whole recording and over every admissible sub-interval lie in [0,1], are symmetric, and are 0 for a train with itself; multivariate ISI / SPIKE / SPIKE-Sync values in [0,1]",
+     tested_only="finiteness of float results; the same axioms through index selections and matrices (oracle on the implementation)",
      rule="exhaustive <=3-spike pairs on the 9-point grid (sampled 3500) + random pairs; random MRTS/max_tau/RI, whole recording and one random sub-interval; distinct by canonical encoding",
      assumptions=[A_FLOAT, A_CY, A_RQ])
 meta("C15",
